@@ -806,9 +806,46 @@ fn dump<'tcx>(tcx: TyCtxt<'tcx>) -> J {
                             }
                         }
                     }
-                    if let Some(b) = cx.bytes_of_constvalue(cv, ty, env) {
-                        if b.len() <= 65536 {
-                            o.push(("bytes", J::Arr(b.iter().map(|x| J::UInt(*x as u128)).collect())));
+                    let mut done = false;
+                    // `const X: &[T] = &[..]` / `&str`: a fat pointer stored indirectly -- follow it
+                    if let (mir::ConstValue::Indirect { alloc_id, offset }, Some(pointee)) = (cv, ty.builtin_deref(true)) {
+                        if matches!(pointee.kind(), ty::Slice(_) | ty::Str) {
+                            let a = tcx.global_alloc(alloc_id).unwrap_memory();
+                            let a = a.inner();
+                            let off = offset.bytes() as usize;
+                            let raw = a.inspect_with_uninit_and_ptr_outside_interpreter(0..a.len());
+                            if off + 16 <= raw.len() {
+                                let mut lenb = [0u8; 8];
+                                lenb.copy_from_slice(&raw[off + 8..off + 16]);
+                                let n = u64::from_le_bytes(lenb) as usize;
+                                let esz = match pointee.kind() {
+                                    ty::Slice(e) => tcx.layout_of(env.as_query_input(*e)).map(|l| l.size.bytes() as usize).unwrap_or(1),
+                                    _ => 1,
+                                };
+                                for (po, prov) in a.provenance().ptrs().iter() {
+                                    if po.bytes() as usize == off {
+                                        if let GlobalAlloc::Memory(t) = tcx.global_alloc(prov.alloc_id()) {
+                                            let ti = t.inner();
+                                            let mut pb = [0u8; 8];
+                                            pb.copy_from_slice(&raw[off..off + 8]);
+                                            let start = u64::from_le_bytes(pb) as usize;
+                                            let all = ti.inspect_with_uninit_and_ptr_outside_interpreter(0..ti.len());
+                                            if start + n * esz <= all.len() && n * esz <= 65536 {
+                                                o.push(("bytes", J::Arr(all[start..start + n * esz].iter().map(|x| J::UInt(*x as u128)).collect())));
+                                                o.push(("slice_len", J::UInt(n as u128)));
+                                                done = true;
+                                            }
+                                        }
+                                    }
+                                }
+                            }
+                        }
+                    }
+                    if !done {
+                        if let Some(b) = cx.bytes_of_constvalue(cv, ty, env) {
+                            if b.len() <= 65536 {
+                                o.push(("bytes", J::Arr(b.iter().map(|x| J::UInt(*x as u128)).collect())));
+                            }
                         }
                     }
                 }
